@@ -188,7 +188,7 @@ pub fn run_c28(ctx: &Ctx) -> i32 {
     rep.set_extra("pairwise_grid_configs", json!(pair_count));
     // random beyond pairs
     let mut rng = ctx.rng("rand");
-    for it in 0..ctx.tier.pick(20_000usize, 800_000) {
+    for it in 0..ctx.tier.pick(20_000usize, 8_000_000) {
         let mut k = BASE;
         for i in 0..8 {
             if rng.gen_bool(0.5) {
@@ -255,7 +255,7 @@ pub fn run_c28(ctx: &Ctx) -> i32 {
                 }
             }
         }
-        for _ in 0..ctx.tier.pick(20_000usize, 500_000) {
+        for _ in 0..ctx.tier.pick(20_000usize, 5_000_000) {
             let a = AggConfigArgs {
                 zk_mode: match rng.gen_range(0..3) { 0 => None, 1 => Some(ZkMode::Rowblinding), _ => Some(ZkMode::Disabled) },
                 num_challenges: opt(&mut rng, 0), security_bits: opt(&mut rng, 1), num_query_rounds: opt(&mut rng, 2), num_wires: opt(&mut rng, 3),
